@@ -35,7 +35,7 @@ theorem Scalars.replicate {p} (hp : isScalar p = true) (n : Nat) : Scalars (List
   intro x hx; rw [(List.mem_replicate.1 hx).2]; exact hp
 
 theorem isScalar_iff (c : Nat) : isScalar c = true ↔ (c < 0xD800 ∨ (0xDFFF < c ∧ c ≤ 0x10FFFF)) := by
-  simp only [isScalar, MaxRune, Bool.or_eq_true, Bool.and_eq_true, decide_eq_true_eq]
+  unfold isScalar MaxRune; simp
 
 theorem isScalar_runeError : isScalar RuneError = true := by decide
 
@@ -120,5 +120,899 @@ theorem decodeRune_encodeRune (c : Nat) (h : isScalar c = true) (rest : Bytes) :
       omega
     simp only [List.cons_append, List.nil_append, decodeRune, a1, a2, a3, a3', a4, a4', a5, a6, a7, if_true,
       if_false, and_self, List.length_cons, List.length_nil]
+
+
+theorem isCont_iff (b : Nat) : isCont b = true ↔ (0x80 ≤ b ∧ b ≤ 0xBF) := by
+  unfold isCont; simp
+
+/-- a successful decoding step yields a scalar value whose encoding is exactly the bytes consumed -/
+theorem decodeRune_valid (s : Bytes) (hne : s ≠ [])
+    (h : ¬ ((decodeRune s).1 = RuneError ∧ (decodeRune s).2 = 1)) :
+    isScalar (decodeRune s).1 = true ∧ s = encodeRune (decodeRune s).1 ++ s.drop (decodeRune s).2
+      ∧ (decodeRune s).2 = (encodeRune (decodeRune s).1).length := by
+  match s, hne with
+  | b0 :: rest, _ =>
+  by_cases c1 : b0 < 0x80
+  · have e : decodeRune (b0 :: rest) = (b0, 1) := by simp [decodeRune, c1]
+    rw [e]; simp [encodeRune, c1, isScalar_iff]; omega
+  · by_cases c2 : 0xC2 ≤ b0 ∧ b0 ≤ 0xDF
+    · match rest with
+      | [] => exfalso; apply h; simp [decodeRune, c1, c2]
+      | b1 :: r =>
+        by_cases k : isCont b1 = true
+        · have e : decodeRune (b0 :: b1 :: r) = ((b0 - 0xC0) * 64 + (b1 - 0x80), 2) := by
+            simp [decodeRune, c1, c2, k]
+          rw [e]
+          have k' := (isCont_iff b1).1 k
+          generalize hx : (b0 - 0xC0) * 64 + (b1 - 0x80) = x
+          have hs : isScalar x = true := (isScalar_iff _).2 (by omega)
+          refine ⟨hs, ?_⟩
+          rcases encodeRune_cases x hs with ⟨h1, he⟩ | ⟨h1, h2, he⟩ | ⟨h1, h2, he⟩ | ⟨h1, h2, he⟩
+          · omega
+          · rw [he]; simp; omega
+          · omega
+          · omega
+        · exfalso; apply h; simp [decodeRune, c1, c2, k]
+    · by_cases c3 : 0xE0 ≤ b0 ∧ b0 ≤ 0xEF
+      · match rest with
+        | [] => exfalso; apply h; simp [decodeRune, c1, c2, c3]
+        | [_] => exfalso; apply h; simp [decodeRune, c1, c2, c3]
+        | b1 :: b2 :: r =>
+          by_cases k : (if b0 = 0xE0 then 0xA0 else 0x80) ≤ b1 ∧ b1 ≤ (if b0 = 0xED then 0x9F else 0xBF)
+              ∧ isCont b2 = true
+          · have e : decodeRune (b0 :: b1 :: b2 :: r)
+                = ((b0 - 0xE0) * 4096 + (b1 - 0x80) * 64 + (b2 - 0x80), 3) := by
+              simp [decodeRune, c1, c2, c3, k]
+            rw [e]
+            obtain ⟨k1, k2, k3⟩ := k
+            have k3' := (isCont_iff b2).1 k3
+            have k1' : 0x80 ≤ b1 ∧ (b0 = 0xE0 → 0xA0 ≤ b1) := by split at k1 <;> omega
+            have k2' : b1 ≤ 0xBF ∧ (b0 = 0xED → b1 ≤ 0x9F) := by split at k2 <;> omega
+            generalize hx : (b0 - 0xE0) * 4096 + (b1 - 0x80) * 64 + (b2 - 0x80) = x
+            have hs : isScalar x = true := (isScalar_iff _).2 (by omega)
+            refine ⟨hs, ?_⟩
+            rcases encodeRune_cases x hs with ⟨h1, he⟩ | ⟨h1, h2, he⟩ | ⟨h1, h2, he⟩ | ⟨h1, h2, he⟩
+            · omega
+            · omega
+            · rw [he]; simp; omega
+            · omega
+          · exfalso; apply h; simp [decodeRune, c1, c2, c3, k]
+      · by_cases c4 : 0xF0 ≤ b0 ∧ b0 ≤ 0xF4
+        · match rest with
+          | [] => exfalso; apply h; simp [decodeRune, c1, c2, c3, c4]
+          | [_] => exfalso; apply h; simp [decodeRune, c1, c2, c3, c4]
+          | [_, _] => exfalso; apply h; simp [decodeRune, c1, c2, c3, c4]
+          | b1 :: b2 :: b3 :: r =>
+            by_cases k : (if b0 = 0xF0 then 0x90 else 0x80) ≤ b1 ∧ b1 ≤ (if b0 = 0xF4 then 0x8F else 0xBF)
+                ∧ isCont b2 = true ∧ isCont b3 = true
+            · have e : decodeRune (b0 :: b1 :: b2 :: b3 :: r)
+                  = ((b0 - 0xF0) * 262144 + (b1 - 0x80) * 4096 + (b2 - 0x80) * 64 + (b3 - 0x80), 4) := by
+                simp [decodeRune, c1, c2, c3, c4, k]
+              rw [e]
+              obtain ⟨k1, k2, k3, k4⟩ := k
+              have k3' := (isCont_iff b2).1 k3
+              have k4' := (isCont_iff b3).1 k4
+              have k1' : 0x80 ≤ b1 ∧ (b0 = 0xF0 → 0x90 ≤ b1) := by split at k1 <;> omega
+              have k2' : b1 ≤ 0xBF ∧ (b0 = 0xF4 → b1 ≤ 0x8F) := by split at k2 <;> omega
+              generalize hx : (b0 - 0xF0) * 262144 + (b1 - 0x80) * 4096 + (b2 - 0x80) * 64 + (b3 - 0x80) = x
+              have hs : isScalar x = true := (isScalar_iff _).2 (by omega)
+              refine ⟨hs, ?_⟩
+              rcases encodeRune_cases x hs with ⟨h1, he⟩ | ⟨h1, h2, he⟩ | ⟨h1, h2, he⟩ | ⟨h1, h2, he⟩
+              · omega
+              · omega
+              · omega
+              · rw [he]; simp; omega
+            · exfalso; apply h; simp [decodeRune, c1, c2, c3, c4, k]
+        · exfalso; apply h; simp [decodeRune, c1, c2, c3, c4]
+
+/-! ### whole strings -/
+
+theorem encodeAll_nil : encodeAll [] = [] := rfl
+theorem encodeAll_cons (c : Nat) (cs : List Nat) : encodeAll (c :: cs) = encodeRune c ++ encodeAll cs := by
+  simp [encodeAll]
+theorem encodeAll_append (as bs : List Nat) : encodeAll (as ++ bs) = encodeAll as ++ encodeAll bs := by
+  simp [encodeAll]
+theorem encodeAll_singleton (c : Nat) : encodeAll [c] = encodeRune c := by simp [encodeAll]
+
+theorem encodeAll_eq_nil (cs : List Nat) : encodeAll cs = [] ↔ cs = [] := by
+  cases cs with
+  | nil => simp [encodeAll]
+  | cons c cs =>
+    rw [encodeAll_cons]; simp [encodeRune_ne_nil]
+
+theorem length_le_encodeAll (cs : List Nat) : cs.length ≤ (encodeAll cs).length := by
+  induction cs with
+  | nil => simp [encodeAll]
+  | cons c cs ih =>
+    rw [encodeAll_cons]; have := encodeRune_length_pos c
+    simp only [List.length_cons, List.length_append]; omega
+
+theorem decodeRune_cons (c : Nat) (cs : List Nat) (h : isScalar c = true) :
+    decodeRune (encodeAll (c :: cs)) = (c, (encodeRune c).length) := by
+  rw [encodeAll_cons]; exact decodeRune_encodeRune c h _
+
+theorem drop_cons (c : Nat) (cs : List Nat) :
+    (encodeAll (c :: cs)).drop (encodeRune c).length = encodeAll cs := by
+  rw [encodeAll_cons]; exact List.drop_left
+
+theorem take_cons (c : Nat) (cs : List Nat) :
+    (encodeAll (c :: cs)).take (encodeRune c).length = encodeRune c := by
+  rw [encodeAll_cons]; exact List.take_left
+
+theorem encodeAll_cons_ne_nil (c : Nat) (cs : List Nat) : encodeAll (c :: cs) ≠ [] := by
+  rw [encodeAll_cons]; simp [encodeRune_ne_nil]
+
+theorem decodeAllAux_succ (fuel : Nat) (s : Bytes) (h : s ≠ []) :
+    decodeAllAux (fuel + 1) s = (decodeRune s).1 :: decodeAllAux fuel (s.drop (decodeRune s).2) := by
+  cases s with
+  | nil => exact absurd rfl h
+  | cons b bs => rfl
+
+theorem decodeAllAux_nil (fuel : Nat) : decodeAllAux fuel [] = [] := by cases fuel <;> rfl
+
+theorem decodeAllAux_encodeAll (cs : List Nat) (h : Scalars cs) :
+    ∀ fuel, (encodeAll cs).length ≤ fuel → decodeAllAux fuel (encodeAll cs) = cs := by
+  induction cs with
+  | nil => intro fuel _; exact decodeAllAux_nil fuel
+  | cons c cs ih =>
+    intro fuel hf
+    have hl : (encodeAll (c :: cs)).length = (encodeRune c).length + (encodeAll cs).length := by
+      rw [encodeAll_cons, List.length_append]
+    have := encodeRune_length_pos c
+    match fuel, hf with
+    | 0, hf => exfalso; omega
+    | f + 1, hf =>
+      rw [decodeAllAux_succ _ _ (encodeAll_cons_ne_nil c cs), decodeRune_cons c cs h.head]
+      simp only [drop_cons]
+      rw [ih h.tail f (by omega)]
+
+theorem decodeAll_encodeAll (cs : List Nat) (h : Scalars cs) : decodeAll (encodeAll cs) = cs :=
+  decodeAllAux_encodeAll cs h _ (Nat.le_refl _)
+
+theorem runeCount_encodeAll (cs : List Nat) (h : Scalars cs) : runeCount (encodeAll cs) = cs.length := by
+  unfold runeCount; rw [decodeAll_encodeAll cs h]
+
+theorem validAux_succ (fuel : Nat) (s : Bytes) (h : s ≠ []) :
+    validAux (fuel + 1) s =
+      (if (decodeRune s).1 = RuneError ∧ (decodeRune s).2 = 1 then false
+       else validAux fuel (s.drop (decodeRune s).2)) := by
+  cases s with
+  | nil => exact absurd rfl h
+  | cons b bs => rfl
+
+theorem validAux_nil (fuel : Nat) : validAux fuel [] = true := by cases fuel <;> rfl
+
+theorem validAux_encodeAll (cs : List Nat) (h : Scalars cs) :
+    ∀ fuel, (encodeAll cs).length ≤ fuel → validAux fuel (encodeAll cs) = true := by
+  induction cs with
+  | nil => intro fuel _; exact validAux_nil fuel
+  | cons c cs ih =>
+    intro fuel hf
+    have hl : (encodeAll (c :: cs)).length = (encodeRune c).length + (encodeAll cs).length := by
+      rw [encodeAll_cons, List.length_append]
+    have := encodeRune_length_pos c
+    match fuel, hf with
+    | 0, hf => exfalso; omega
+    | f + 1, hf =>
+      rw [validAux_succ _ _ (encodeAll_cons_ne_nil c cs), decodeRune_cons c cs h.head]
+      simp only [drop_cons]
+      rw [ih h.tail f (by omega)]
+      have hne : ¬ (c = RuneError ∧ (encodeRune c).length = 1) := by
+        intro ⟨h1, h2⟩; subst h1; revert h2; decide
+      simp [hne]
+
+theorem validUTF8_encodeAll (cs : List Nat) (h : Scalars cs) : validUTF8 (encodeAll cs) = true :=
+  validAux_encodeAll cs h _ (Nat.le_refl _)
+
+theorem validAux_decode (fuel : Nat) : ∀ s : Bytes, validAux fuel s = true →
+    Scalars (decodeAllAux fuel s) ∧ s = encodeAll (decodeAllAux fuel s) := by
+  induction fuel with
+  | zero =>
+    intro s h
+    cases s with
+    | nil => exact ⟨Scalars.nil, rfl⟩
+    | cons b bs => simp [validAux] at h
+  | succ f ih =>
+    intro s h
+    by_cases hne : s = []
+    · subst hne; exact ⟨Scalars.nil, rfl⟩
+    · rw [validAux_succ f s hne] at h
+      by_cases he : (decodeRune s).1 = RuneError ∧ (decodeRune s).2 = 1
+      · rw [if_pos he] at h; cases h
+      · rw [if_neg he] at h
+        obtain ⟨h1, h2, _⟩ := decodeRune_valid s hne he
+        obtain ⟨i1, i2⟩ := ih _ h
+        rw [decodeAllAux_succ f s hne]
+        refine ⟨Scalars.cons h1 i1, ?_⟩
+        rw [encodeAll_cons, ← i2]; exact h2
+
+/-- every valid UTF-8 string is the encoding of its code points, all scalar values -/
+theorem validUTF8_decode (bs : Bytes) (h : validUTF8 bs = true) :
+    Scalars (decodeAll bs) ∧ bs = encodeAll (decodeAll bs) := validAux_decode _ bs h
+
+theorem validUTF8_iff (bs : Bytes) : validUTF8 bs = true ↔ ∃ cs, Scalars cs ∧ bs = encodeAll cs := by
+  constructor
+  · intro h; exact ⟨decodeAll bs, validUTF8_decode bs h⟩
+  · rintro ⟨cs, h, rfl⟩; exact validUTF8_encodeAll cs h
+
+/-! ### the last rune -/
+
+theorem getD_append_back (pre l : List Nat) (k : Nat) (hk : k ≤ l.length) (d : Nat) :
+    (pre ++ l).getD ((pre ++ l).length - k) d = l.getD (l.length - k) d := by
+  have e : (pre ++ l).length - k = pre.length + (l.length - k) := by
+    rw [List.length_append]; omega
+  rw [e, List.getD_eq_getElem?_getD, List.getD_eq_getElem?_getD, List.getElem?_append_right (by omega)]
+  congr 2; omega
+
+theorem drop_append_back (pre l : List Nat) (k : Nat) (hk : k ≤ l.length) :
+    (pre ++ l).drop ((pre ++ l).length - k) = l.drop (l.length - k) := by
+  have e : (pre ++ l).length - k = pre.length + (l.length - k) := by
+    rw [List.length_append]; omega
+  rw [e, List.drop_append]; simp
+
+theorem dlr1 (s : Bytes) (h1 : 1 ≤ s.length) (hl : s.getD (s.length - 1) 0 < 0x80) :
+    decodeLastRune s = (s.getD (s.length - 1) 0, 1) := by
+  unfold decodeLastRune
+  have : s.length ≠ 0 := by omega
+  simp only [this, hl, if_true, if_false]
+
+theorem dlr2 (s : Bytes) (r : Nat) (h2 : 2 ≤ s.length) (hl : ¬ s.getD (s.length - 1) 0 < 0x80)
+    (hs : runeStart (s.getD (s.length - 2) 0) = true)
+    (hd : decodeRune (s.drop (s.length - 2)) = (r, 2)) : decodeLastRune s = (r, 2) := by
+  unfold decodeLastRune
+  have : s.length ≠ 0 := by omega
+  have e : ¬ (s.length - 2 + 2 ≠ s.length) := by omega
+  simp only [this, hl, h2, hs, hd, e, and_self, if_true, if_false]
+
+theorem dlr3 (s : Bytes) (r : Nat) (h3 : 3 ≤ s.length) (hl : ¬ s.getD (s.length - 1) 0 < 0x80)
+    (hs2 : runeStart (s.getD (s.length - 2) 0) = false)
+    (hs : runeStart (s.getD (s.length - 3) 0) = true)
+    (hd : decodeRune (s.drop (s.length - 3)) = (r, 3)) : decodeLastRune s = (r, 3) := by
+  unfold decodeLastRune
+  have : s.length ≠ 0 := by omega
+  have e : ¬ (s.length - 3 + 3 ≠ s.length) := by omega
+  simp only [this, hl, h3, hs2, hs, hd, e, and_self, and_false, if_true, if_false, Bool.false_eq_true]
+
+theorem dlr4 (s : Bytes) (r : Nat) (h4 : 4 ≤ s.length) (hl : ¬ s.getD (s.length - 1) 0 < 0x80)
+    (hs2 : runeStart (s.getD (s.length - 2) 0) = false)
+    (hs3 : runeStart (s.getD (s.length - 3) 0) = false)
+    (hs : runeStart (s.getD (s.length - 4) 0) = true)
+    (hd : decodeRune (s.drop (s.length - 4)) = (r, 4)) : decodeLastRune s = (r, 4) := by
+  unfold decodeLastRune
+  have : s.length ≠ 0 := by omega
+  have e : ¬ (s.length - 4 + 4 ≠ s.length) := by omega
+  simp only [this, hl, h4, hs2, hs3, hs, hd, e, and_self, and_false, if_true, if_false,
+    Bool.false_eq_true]
+
+theorem runeStart_iff (b : Nat) : runeStart b = true ↔ ¬ (0x80 ≤ b ∧ b ≤ 0xBF) := by
+  unfold runeStart; simp [isCont_iff]; omega
+
+theorem runeStart_false_iff (b : Nat) : runeStart b = false ↔ (0x80 ≤ b ∧ b ≤ 0xBF) := by
+  unfold runeStart; simp [isCont_iff]
+
+theorem decodeLastRune_append (pre : Bytes) (c : Nat) (h : isScalar c = true) :
+    decodeLastRune (pre ++ encodeRune c) = (c, (encodeRune c).length) := by
+  have hd := decodeRune_encodeRune c h []
+  rw [List.append_nil] at hd
+  have hs := (isScalar_iff c).1 h
+  rcases encodeRune_cases c h with ⟨h1, he⟩ | ⟨h1, h2, he⟩ | ⟨h1, h2, he⟩ | ⟨h1, h2, he⟩
+  · rw [he] at hd ⊢
+    have g1 := getD_append_back pre [c] 1 (by simp) 0
+    have := dlr1 (pre ++ [c]) (by simp) (by rw [g1]; simpa using h1)
+    rw [this, g1]; simp
+  · rw [he] at hd ⊢
+    have g1 := getD_append_back pre [0xC0 + c / 64, 0x80 + c % 64] 1 (by simp) 0
+    have g2 := getD_append_back pre [0xC0 + c / 64, 0x80 + c % 64] 2 (by simp) 0
+    have d2 := drop_append_back pre [0xC0 + c / 64, 0x80 + c % 64] 2 (by simp)
+    exact dlr2 _ c (by simp) (by rw [g1]; simp) (by rw [g2, runeStart_iff]; simp; omega)
+      (by rw [d2]; simpa using hd)
+  · rw [he] at hd ⊢
+    have g1 := getD_append_back pre [0xE0 + c / 4096, 0x80 + (c / 64) % 64, 0x80 + c % 64] 1 (by simp) 0
+    have g2 := getD_append_back pre [0xE0 + c / 4096, 0x80 + (c / 64) % 64, 0x80 + c % 64] 2 (by simp) 0
+    have g3 := getD_append_back pre [0xE0 + c / 4096, 0x80 + (c / 64) % 64, 0x80 + c % 64] 3 (by simp) 0
+    have d3 := drop_append_back pre [0xE0 + c / 4096, 0x80 + (c / 64) % 64, 0x80 + c % 64] 3 (by simp)
+    exact dlr3 _ c (by simp) (by rw [g1]; simp) (by rw [g2, runeStart_false_iff]; simp; omega)
+      (by rw [g3, runeStart_iff]; simp; omega) (by rw [d3]; simpa using hd)
+  · rw [he] at hd ⊢
+    have g1 := getD_append_back pre
+      [0xF0 + c / 262144, 0x80 + (c / 4096) % 64, 0x80 + (c / 64) % 64, 0x80 + c % 64] 1 (by simp) 0
+    have g2 := getD_append_back pre
+      [0xF0 + c / 262144, 0x80 + (c / 4096) % 64, 0x80 + (c / 64) % 64, 0x80 + c % 64] 2 (by simp) 0
+    have g3 := getD_append_back pre
+      [0xF0 + c / 262144, 0x80 + (c / 4096) % 64, 0x80 + (c / 64) % 64, 0x80 + c % 64] 3 (by simp) 0
+    have g4 := getD_append_back pre
+      [0xF0 + c / 262144, 0x80 + (c / 4096) % 64, 0x80 + (c / 64) % 64, 0x80 + c % 64] 4 (by simp) 0
+    have d4 := drop_append_back pre
+      [0xF0 + c / 262144, 0x80 + (c / 4096) % 64, 0x80 + (c / 64) % 64, 0x80 + c % 64] 4 (by simp)
+    exact dlr4 _ c (by simp) (by rw [g1]; simp) (by rw [g2, runeStart_false_iff]; simp; omega)
+      (by rw [g3, runeStart_false_iff]; simp; omega)
+      (by rw [g4, runeStart_iff]; simp; omega) (by rw [d4]; simpa using hd)
+
+/-! ### walking forwards: `dropRunes`, `runesLen`, `walkFwd`, `runePieces` -/
+
+theorem dropRunes_succ (n : Nat) (s : Bytes) (h : s ≠ []) :
+    dropRunes (n + 1) s = dropRunes n (s.drop (decodeRune s).2) := by
+  cases s with
+  | nil => exact absurd rfl h
+  | cons b bs => rfl
+
+theorem dropRunes_nil (n : Nat) : dropRunes n [] = [] := by cases n <;> rfl
+
+theorem dropRunes_encodeAll (k : Nat) : ∀ cs : List Nat, Scalars cs →
+    dropRunes k (encodeAll cs) = encodeAll (cs.drop k) := by
+  induction k with
+  | zero => intro cs _; rfl
+  | succ k ih =>
+    intro cs h
+    cases cs with
+    | nil => exact dropRunes_nil _
+    | cons c cs =>
+      rw [dropRunes_succ _ _ (encodeAll_cons_ne_nil c cs), decodeRune_cons c cs h.head]
+      simp only [drop_cons, List.drop_succ_cons]
+      exact ih cs h.tail
+
+theorem runesLen_succ (n : Nat) (s : Bytes) (h : s ≠ []) :
+    runesLen (n + 1) s = (decodeRune s).2 + runesLen n (s.drop (decodeRune s).2) := by
+  cases s with
+  | nil => exact absurd rfl h
+  | cons b bs => rfl
+
+theorem runesLen_nil (n : Nat) : runesLen n [] = 0 := by cases n <;> rfl
+
+theorem runesLen_encodeAll (k : Nat) : ∀ cs : List Nat, Scalars cs →
+    runesLen k (encodeAll cs) = (encodeAll (cs.take k)).length := by
+  induction k with
+  | zero => intro cs _; rfl
+  | succ k ih =>
+    intro cs h
+    cases cs with
+    | nil => exact runesLen_nil _
+    | cons c cs =>
+      rw [runesLen_succ _ _ (encodeAll_cons_ne_nil c cs), decodeRune_cons c cs h.head]
+      simp only [drop_cons, List.take_succ_cons]
+      rw [ih cs h.tail, encodeAll_cons, List.length_append]
+
+theorem encodeAll_take_drop (k : Nat) (cs : List Nat) :
+    encodeAll cs = encodeAll (cs.take k) ++ encodeAll (cs.drop k) := by
+  rw [← encodeAll_append, List.take_append_drop]
+
+theorem take_runesLen_encodeAll (k : Nat) (cs : List Nat) (h : Scalars cs) :
+    (encodeAll cs).take (runesLen k (encodeAll cs)) = encodeAll (cs.take k) := by
+  rw [runesLen_encodeAll k cs h]
+  conv => lhs; arg 2; rw [encodeAll_take_drop k cs]
+  exact List.take_left
+
+theorem encodeAll_range_succ (f : Nat → Nat) (n : Nat) :
+    encodeAll ((List.range (n + 1)).map f)
+      = encodeRune (f 0) ++ encodeAll ((List.range n).map (fun i => f (i + 1))) := by
+  rw [List.range_succ_eq_map, List.map_cons, encodeAll_cons, List.map_map]; rfl
+
+theorem walkFwd_succ (step n : Nat) (s : Bytes) :
+    walkFwd step (n + 1) s
+      = encodeRune (decodeRune s).1 ++ walkFwd step n (dropRunes (step - 1) (s.drop (decodeRune s).2)) := rfl
+
+/-- the forward walk visits the code points `0, step, 2·step, …`; past the end of the string the Go loop
+    decodes U+FFFD from the empty string (never reached for the counts `clampStep` computes) -/
+theorem walkFwd_encodeAll (step : Nat) (hstep : 1 ≤ step) (n : Nat) : ∀ cs : List Nat, Scalars cs →
+    walkFwd step n (encodeAll cs)
+      = encodeAll ((List.range n).map (fun i => cs.getD (i * step) RuneError)) := by
+  induction n with
+  | zero => intro cs _; rfl
+  | succ n ih =>
+    intro cs h
+    rw [walkFwd_succ, encodeAll_range_succ]
+    cases cs with
+    | nil =>
+      have e : decodeRune (encodeAll []) = (RuneError, 0) := rfl
+      rw [e]
+      simp only [List.drop_zero, encodeAll_nil, dropRunes_nil]
+      have := ih [] Scalars.nil
+      rw [encodeAll_nil] at this
+      rw [this]; simp
+    | cons c cs =>
+      rw [decodeRune_cons c cs h.head]
+      simp only [drop_cons]
+      rw [dropRunes_encodeAll _ cs h.tail, ih _ (h.tail.drop _)]
+      simp only [Nat.zero_mul, List.getD_cons_zero]
+      congr 2
+      apply List.map_congr_left
+      intro i _
+      have e : (i + 1) * step = (step - 1 + i * step) + 1 := by rw [Nat.succ_mul]; omega
+      rw [e, List.getD_eq_getElem?_getD, List.getD_eq_getElem?_getD, List.getElem?_drop,
+        List.getElem?_cons_succ]
+
+theorem runePiecesAux_succ (fuel : Nat) (s : Bytes) (h : s ≠ []) :
+    runePiecesAux (fuel + 1) s = s.take (decodeRune s).2 :: runePiecesAux fuel (s.drop (decodeRune s).2) := by
+  cases s with
+  | nil => exact absurd rfl h
+  | cons b bs => rfl
+
+theorem runePiecesAux_nil (fuel : Nat) : runePiecesAux fuel [] = [] := by cases fuel <;> rfl
+
+theorem runePiecesAux_encodeAll (cs : List Nat) (h : Scalars cs) :
+    ∀ fuel, cs.length ≤ fuel → runePiecesAux fuel (encodeAll cs) = cs.map encodeRune := by
+  induction cs with
+  | nil => intro fuel _; exact runePiecesAux_nil fuel
+  | cons c cs ih =>
+    intro fuel hf
+    match fuel, hf with
+    | f + 1, hf =>
+      rw [runePiecesAux_succ _ _ (encodeAll_cons_ne_nil c cs), decodeRune_cons c cs h.head]
+      simp only [drop_cons, take_cons, List.map_cons]
+      rw [ih h.tail f (by simpa using hf)]
+
+theorem runePieces_encodeAll (cs : List Nat) (h : Scalars cs) :
+    runePieces (encodeAll cs) = cs.map encodeRune :=
+  runePiecesAux_encodeAll cs h _ (length_le_encodeAll cs)
+
+/-! ### walking backwards: `reverseRunes`, `dropLastRunes`, `walkBwd` -/
+
+theorem encodeAll_reverse_cons (c : Nat) (rs : List Nat) :
+    encodeAll (c :: rs).reverse = encodeAll rs.reverse ++ encodeRune c := by
+  rw [List.reverse_cons, encodeAll_append, encodeAll_singleton]
+
+theorem encodeAll_reverse_cons_ne_nil (c : Nat) (rs : List Nat) : encodeAll (c :: rs).reverse ≠ [] := by
+  rw [encodeAll_reverse_cons]; simp [encodeRune_ne_nil]
+
+theorem decodeLastRune_snoc (c : Nat) (rs : List Nat) (h : isScalar c = true) :
+    decodeLastRune (encodeAll (c :: rs).reverse) = (c, (encodeRune c).length) := by
+  rw [encodeAll_reverse_cons]; exact decodeLastRune_append _ c h
+
+theorem take_snoc (c : Nat) (rs : List Nat) :
+    (encodeAll (c :: rs).reverse).take ((encodeAll (c :: rs).reverse).length - (encodeRune c).length)
+      = encodeAll rs.reverse := by
+  rw [encodeAll_reverse_cons, List.length_append, Nat.add_sub_cancel]; exact List.take_left
+
+theorem reverseRunes_succ (fuel : Nat) (s : Bytes) (h : s ≠ []) :
+    reverseRunes (fuel + 1) s
+      = encodeRune (decodeLastRune s).1 ++ reverseRunes fuel (s.take (s.length - (decodeLastRune s).2)) := by
+  cases s with
+  | nil => exact absurd rfl h
+  | cons b bs => rfl
+
+theorem reverseRunes_nil (fuel : Nat) : reverseRunes fuel [] = [] := by cases fuel <;> rfl
+
+theorem reverseRunes_encodeAll (rs : List Nat) (h : Scalars rs) :
+    ∀ fuel, rs.length ≤ fuel → reverseRunes fuel (encodeAll rs.reverse) = encodeAll rs := by
+  induction rs with
+  | nil => intro fuel _; exact reverseRunes_nil fuel
+  | cons c rs ih =>
+    intro fuel hf
+    match fuel, hf with
+    | f + 1, hf =>
+      rw [reverseRunes_succ _ _ (encodeAll_reverse_cons_ne_nil c rs), decodeLastRune_snoc c rs h.head]
+      simp only [take_snoc]
+      rw [ih h.tail f (by simpa using hf), encodeAll_cons]
+
+theorem dropLastRunes_succ (n : Nat) (s : Bytes) (h : s ≠ []) :
+    dropLastRunes (n + 1) s = dropLastRunes n (s.take (s.length - (decodeLastRune s).2)) := by
+  cases s with
+  | nil => exact absurd rfl h
+  | cons b bs => rfl
+
+theorem dropLastRunes_nil (n : Nat) : dropLastRunes n [] = [] := by cases n <;> rfl
+
+theorem dropLastRunes_encodeAll (k : Nat) : ∀ rs : List Nat, Scalars rs →
+    dropLastRunes k (encodeAll rs.reverse) = encodeAll (rs.drop k).reverse := by
+  induction k with
+  | zero => intro rs _; rfl
+  | succ k ih =>
+    intro rs h
+    cases rs with
+    | nil => exact dropLastRunes_nil _
+    | cons c rs =>
+      rw [dropLastRunes_succ _ _ (encodeAll_reverse_cons_ne_nil c rs), decodeLastRune_snoc c rs h.head]
+      simp only [take_snoc, List.drop_succ_cons]
+      exact ih rs h.tail
+
+theorem walkBwd_succ (step n : Nat) (s : Bytes) :
+    walkBwd step (n + 1) s
+      = encodeRune (decodeLastRune s).1
+        ++ walkBwd step n (dropLastRunes (step - 1) (s.take (s.length - (decodeLastRune s).2))) := rfl
+
+/-- the backward walk visits the code points of the reversed string at `0, step, 2·step, …` -/
+theorem walkBwd_encodeAll (step : Nat) (hstep : 1 ≤ step) (n : Nat) : ∀ rs : List Nat, Scalars rs →
+    walkBwd step n (encodeAll rs.reverse)
+      = encodeAll ((List.range n).map (fun i => rs.getD (i * step) RuneError)) := by
+  induction n with
+  | zero => intro rs _; rfl
+  | succ n ih =>
+    intro rs h
+    rw [walkBwd_succ, encodeAll_range_succ]
+    cases rs with
+    | nil =>
+      have e : decodeLastRune (encodeAll [].reverse) = (RuneError, 0) := rfl
+      rw [e]
+      have e2 : encodeAll ([] : List Nat).reverse = [] := rfl
+      simp only [e2, List.take_nil, dropLastRunes_nil]
+      have := ih [] Scalars.nil
+      rw [e2] at this
+      rw [this]; simp
+    | cons c rs =>
+      rw [decodeLastRune_snoc c rs h.head]
+      simp only [take_snoc]
+      rw [dropLastRunes_encodeAll _ rs h.tail, ih _ (h.tail.drop _)]
+      simp only [Nat.zero_mul, List.getD_cons_zero]
+      congr 2
+      apply List.map_congr_left
+      intro i _
+      have e : (i + 1) * step = (step - 1 + i * step) + 1 := by rw [Nat.succ_mul]; omega
+      rw [e, List.getD_eq_getElem?_getD, List.getD_eq_getElem?_getD, List.getElem?_drop,
+        List.getElem?_cons_succ]
+
+/-! ### the index arithmetic of `clampStep` -/
+
+theorem count_min (c : Int) (hc : 0 < c) (hlt : c < 2 ^ 63) :
+    (if Int.tmod c (-2 ^ 63) > 0 then Int.tdiv c (-2 ^ 63) + 1 else Int.tdiv c (-2 ^ 63)) = 1 := by
+  have h1 : Int.tdiv c (2 ^ 63) = 0 := Int.tdiv_eq_zero_of_lt (by omega) hlt
+  have h2 : Int.tmod c (2 ^ 63) = c := Int.tmod_eq_of_lt (by omega) hlt
+  rw [Int.tdiv_neg, Int.tmod_neg, h1, h2]
+  simp [hc]
+theorem wrap64_min : wrap64 (-2 ^ 63 * -1) = -2 ^ 63 := by decide
+
+theorem getD_drop (cs : List Nat) (k j d : Nat) : (cs.drop k).getD j d = cs.getD (k + j) d := by
+  rw [List.getD_eq_getElem?_getD, List.getD_eq_getElem?_getD, List.getElem?_drop]
+
+theorem count_bound (c s i : Int) (hc : 0 < c) (hs : 0 < s) (hi0 : 0 ≤ i)
+    (hi : i < (if Int.tmod c s > 0 then Int.tdiv c s + 1 else Int.tdiv c s)) : i * s < c := by
+  have e : s * Int.tdiv c s + Int.tmod c s = c := Int.mul_tdiv_add_tmod c s
+  have m0 : 0 ≤ Int.tmod c s := Int.tmod_nonneg s (by omega)
+  generalize Int.tdiv c s = q at *
+  generalize Int.tmod c s = m at *
+  have ec : s * q = q * s := Int.mul_comm _ _
+  by_cases hm : m > 0
+  · rw [if_pos hm] at hi
+    have : i * s ≤ q * s := Int.mul_le_mul_of_nonneg_right (by omega) (by omega)
+    omega
+  · rw [if_neg hm] at hi
+    have : i * s ≤ (q - 1) * s := Int.mul_le_mul_of_nonneg_right (by omega) (by omega)
+    rw [Int.sub_mul] at this
+    omega
+
+theorem wrap64_neg (step : Int) (h1 : -2 ^ 63 < step) (h2 : step < 0) : wrap64 (step * -1) = -step := by
+  unfold wrap64; omega
+
+theorem clampStep_inRange (l start stop step a n : Int) (hl : 0 ≤ l) (hs : step ≠ 0)
+    (hmin : -2 ^ 63 < step ∨ (step = -2 ^ 63 ∧ l < 2 ^ 63)) (h : clampStep l start stop step = some (a, n)) :
+    0 ≤ a ∧ a < l ∧ ∀ i : Int, 0 ≤ i → i < n → 0 ≤ a + i * step ∧ a + i * step < l := by
+  unfold clampStep at h
+  by_cases hpos : step > 0
+  · simp only [hpos, if_true] at h
+    split at h
+    · cases h
+    · rename_i a' ha'
+      split at h
+      · cases h
+      · rename_i b' hb'
+        split at h
+        · cases h
+        · rename_i hab
+          injection h with h; injection h with h1 h2
+          subst h1
+          have fa : 0 ≤ a' := by
+            split at ha'
+            · split at ha' <;> (injection ha' with ha'; omega)
+            · split at ha'
+              · cases ha'
+              · injection ha' with ha'; omega
+          have fb : b' ≤ l := by
+            split at hb'
+            · split at hb'
+              · cases hb'
+              · injection hb' with hb'; omega
+            · split at hb' <;> (injection hb' with hb'; omega)
+          refine ⟨fa, by omega, ?_⟩
+          intro i hi0 hi
+          rw [← h2] at hi
+          have := count_bound (b' - a') step i (by omega) hpos hi0 hi
+          have : 0 ≤ i * step := Int.mul_nonneg hi0 (by omega)
+          omega
+  · simp only [hpos, if_false] at h
+    have hneg : step < 0 := by omega
+    generalize hw : wrap64 (step * -1) = s at h
+    split at h
+    · cases h
+    · rename_i a' ha'
+      split at h
+      · cases h
+      · rename_i b' hb'
+        split at h
+        · cases h
+        · rename_i hab
+          injection h with h; injection h with h1 h2
+          subst h1
+          have fa : a' < l := by
+            split at ha'
+            · split at ha'
+              · cases ha'
+              · injection ha' with ha'; omega
+            · split at ha' <;> (injection ha' with ha'; omega)
+          have fb : -1 ≤ b' := by
+            split at hb'
+            · split at hb' <;> (injection hb' with hb'; omega)
+            · split at hb'
+              · cases hb'
+              · injection hb' with hb'; omega
+          refine ⟨by omega, fa, ?_⟩
+          intro i hi0 hi
+          rw [← h2] at hi
+          rcases hmin with hmin | ⟨hmin, hlen⟩
+          · rw [wrap64_neg step hmin hneg] at hw
+            subst hw
+            have := count_bound (a' - b') (-step) i (by omega) (by omega) hi0 hi
+            rw [Int.mul_neg] at this
+            have : 0 ≤ i * (-step) := Int.mul_nonneg hi0 (by omega)
+            rw [Int.mul_neg] at this
+            omega
+          · subst hmin
+            rw [wrap64_min] at hw
+            subst hw
+            rw [count_min (a' - b') (by omega) (by omega)] at hi
+            have : i = 0 := by omega
+            subst this
+            omega
+
+
+
+/-! ### byte order = code point order -/
+
+theorem bytesLt_cons_lt (a b : Nat) (x y : Bytes) (h : a < b) : bytesLt (a :: x) (b :: y) = true := by
+  simp [bytesLt, h]
+
+theorem bytesLt_cons_eq (a : Nat) (x y : Bytes) : bytesLt (a :: x) (a :: y) = bytesLt x y := by
+  simp [bytesLt]
+
+theorem bytesLt_append_left (x y z : Bytes) : bytesLt (x ++ y) (x ++ z) = bytesLt y z := by
+  induction x with
+  | nil => rfl
+  | cons a x ih => rw [List.cons_append, List.cons_append, bytesLt_cons_eq, ih]
+
+theorem bytesLt_asymm : ∀ x y : Bytes, bytesLt x y = true → bytesLt y x = false
+  | [], [], h => by simp [bytesLt] at h
+  | [], _ :: _, _ => by simp [bytesLt]
+  | _ :: _, [], h => by simp [bytesLt] at h
+  | a :: x, b :: y, h => by
+    by_cases h1 : a < b
+    · have : ¬ b < a := by omega
+      simp [bytesLt, this, h1]
+    · by_cases h2 : a > b
+      · simp [bytesLt, h1, h2] at h
+      · have : a = b := by omega
+        subst this
+        rw [bytesLt_cons_eq] at h ⊢
+        exact bytesLt_asymm x y h
+
+theorem bytesLt_cons_le (a b : Nat) (x y : Bytes) (h : a ≤ b) (hxy : a = b → bytesLt x y = true) :
+    bytesLt (a :: x) (b :: y) = true := by
+  by_cases h1 : a < b
+  · exact bytesLt_cons_lt a b x y h1
+  · have : a = b := by omega
+    subst this; rw [bytesLt_cons_eq]; exact hxy rfl
+
+/-- the encoding is strictly monotone for the bytewise order, whatever follows -/
+theorem bytesLt_encodeRune (a b : Nat) (ha : isScalar a = true) (hb : isScalar b = true) (h : a < b)
+    (y z : Bytes) : bytesLt (encodeRune a ++ y) (encodeRune b ++ z) = true := by
+  rcases encodeRune_cases a ha with ⟨a1, ea⟩ | ⟨a1, a2, ea⟩ | ⟨a1, a2, ea⟩ | ⟨a1, a2, ea⟩ <;>
+  rcases encodeRune_cases b hb with ⟨b1, eb⟩ | ⟨b1, b2, eb⟩ | ⟨b1, b2, eb⟩ | ⟨b1, b2, eb⟩ <;>
+  rw [ea, eb] <;> simp only [List.cons_append, List.nil_append]
+  all_goals first
+    | (exfalso; omega)
+    | (apply bytesLt_cons_lt; omega)
+    | skip
+  all_goals first
+    | (apply bytesLt_cons_le _ _ _ _ (by omega); intro e1; apply bytesLt_cons_lt; omega)
+    | (apply bytesLt_cons_le _ _ _ _ (by omega); intro e1; apply bytesLt_cons_le _ _ _ _ (by omega); intro e2
+       apply bytesLt_cons_lt; omega)
+    | (apply bytesLt_cons_le _ _ _ _ (by omega); intro e1; apply bytesLt_cons_le _ _ _ _ (by omega); intro e2
+       apply bytesLt_cons_le _ _ _ _ (by omega); intro e3; apply bytesLt_cons_lt; omega)
+
+/-- lexicographic order on code point lists -/
+def cpLt : List Nat → List Nat → Bool
+  | [], [] => false
+  | [], _ :: _ => true
+  | _ :: _, [] => false
+  | a :: as, b :: bs => if a < b then true else if a > b then false else cpLt as bs
+
+theorem bytesLt_nil_encodeAll_cons (b : Nat) (bs : List Nat) : bytesLt [] (encodeAll (b :: bs)) = true := by
+  cases h : encodeAll (b :: bs) with
+  | nil => exact absurd h (encodeAll_cons_ne_nil b bs)
+  | cons x xs => rfl
+
+theorem bytesLt_nil_right (x : Bytes) : bytesLt x [] = false := by cases x <;> rfl
+
+theorem bytesLt_encodeAll : ∀ as bs : List Nat, Scalars as → Scalars bs →
+    bytesLt (encodeAll as) (encodeAll bs) = cpLt as bs
+  | [], [], _, _ => rfl
+  | [], b :: bs, _, _ => bytesLt_nil_encodeAll_cons b bs
+  | a :: as, [], _, _ => bytesLt_nil_right _
+  | a :: as, b :: bs, ha, hb => by
+    rw [encodeAll_cons, encodeAll_cons]
+    by_cases h1 : a < b
+    · rw [bytesLt_encodeRune a b ha.head hb.head h1]; simp [cpLt, h1]
+    · by_cases h2 : a > b
+      · rw [bytesLt_asymm _ _ (bytesLt_encodeRune b a hb.head ha.head h2 _ _)]; simp [cpLt, h1, h2]
+      · have : a = b := by omega
+        subst this
+        rw [bytesLt_append_left, bytesLt_encodeAll as bs ha.tail hb.tail]; simp [cpLt]
+
+theorem cpLt_iff_lt : ∀ as bs : List Nat, cpLt as bs = true ↔ as < bs
+  | [], [] => by simp [cpLt]
+  | [], _ :: _ => by simp [cpLt]
+  | _ :: _, [] => by simp [cpLt]
+  | a :: as, b :: bs => by
+    rw [List.cons_lt_cons_iff]
+    by_cases h1 : a < b
+    · simp [cpLt, h1]
+    · by_cases h2 : a > b
+      · have : a ≠ b := by omega
+        simp [cpLt, h1, h2, this]
+      · have : a = b := by omega
+        subst this
+        simp [cpLt, cpLt_iff_lt as bs]
+
+
+/-! ### substring search: byte offsets of matches are code point boundaries -/
+
+/-- the first byte of an encoding is a rune start, the others are continuation bytes -/
+theorem encodeRune_shape (c : Nat) (h : isScalar c = true) :
+    ∃ b0 t, encodeRune c = b0 :: t ∧ isCont b0 = false ∧ ∀ b ∈ t, isCont b = true := by
+  have hs := (isScalar_iff c).1 h
+  rcases encodeRune_cases c h with ⟨h1, he⟩ | ⟨h1, h2, he⟩ | ⟨h1, h2, he⟩ | ⟨h1, h2, he⟩
+  · refine ⟨_, _, he, ?_, by simp⟩
+    simp [isCont]; omega
+  · refine ⟨_, _, he, ?_, ?_⟩
+    · simp [isCont]; omega
+    · simp [isCont_iff]; omega
+  · refine ⟨_, _, he, ?_, ?_⟩
+    · simp [isCont]; omega
+    · simp [isCont_iff]; omega
+  · refine ⟨_, _, he, ?_, ?_⟩
+    · simp [isCont]; omega
+    · simp [isCont_iff]; omega
+
+theorem encodeAll_prefix {ps cs : List Nat} (h : ps <+: cs) : encodeAll ps <+: encodeAll cs := by
+  obtain ⟨t, rfl⟩ := h
+  rw [encodeAll_append]; exact List.prefix_append _ _
+
+/-- prefix reflection: the encoding is a prefix code -/
+theorem prefix_of_encodeAll_prefix : ∀ ps cs : List Nat, Scalars ps → Scalars cs →
+    encodeAll ps <+: encodeAll cs → ps <+: cs
+  | [], _, _, _, _ => List.nil_prefix
+  | p :: ps, [], _, _, h => by
+    rw [encodeAll_nil, List.prefix_nil] at h
+    exact absurd h (encodeAll_cons_ne_nil p ps)
+  | p :: ps, c :: cs, hp, hc, h => by
+    obtain ⟨t, ht⟩ := h
+    have d1 := decodeRune_cons c cs hc.head
+    rw [← ht, encodeAll_cons, List.append_assoc, decodeRune_encodeRune p hp.head] at d1
+    have e : p = c := congrArg Prod.fst d1
+    subst e
+    rw [encodeAll_cons, encodeAll_cons, List.append_assoc] at ht
+    have ht' := List.append_cancel_left ht
+    have := prefix_of_encodeAll_prefix ps cs hp.tail hc.tail ⟨t, ht'⟩
+    exact (List.cons_prefix_cons).2 ⟨rfl, this⟩
+
+theorem indexOfAux_eq (off : Nat) (s p : Bytes) :
+    indexOfAux off s p = if p.isPrefixOf s then some off else
+      match s with
+      | [] => none
+      | _ :: t => indexOfAux (off + 1) t p := by
+  rw [indexOfAux.eq_def]; rfl
+
+theorem indexOfAux_shift : ∀ (s p : List Nat) (off : Nat),
+    indexOfAux off s p = (indexOfAux 0 s p).map (off + ·)
+  | [], p, off => by
+    rw [indexOfAux_eq off, indexOfAux_eq 0]; split <;> rfl
+  | a :: t, p, off => by
+    rw [indexOfAux_eq off, indexOfAux_eq 0]
+    split
+    · rfl
+    · simp only
+      rw [indexOfAux_shift t p (off + 1), indexOfAux_shift t p (0 + 1)]
+      cases indexOfAux 0 t p with
+      | none => rfl
+      | some k => simp only [Option.map_some]; congr 1; omega
+
+theorem indexOfAux_skip (p : Bytes) : ∀ (x y : Bytes) (off : Nat),
+    (∀ j, j < x.length → p.isPrefixOf ((x ++ y).drop j) = false) →
+    indexOfAux off (x ++ y) p = indexOfAux (off + x.length) y p
+  | [], y, off, _ => rfl
+  | a :: x, y, off, h => by
+    rw [indexOfAux_eq off]
+    have h0 := h 0 (by simp)
+    rw [List.drop_zero] at h0
+    rw [h0]
+    simp only [List.cons_append, Bool.false_eq_true, if_false]
+    rw [indexOfAux_skip p x y (off + 1) (fun j hj => by
+      have := h (j + 1) (by simpa using hj)
+      simpa using this)]
+    congr 1; simp only [List.length_cons]; omega
+
+theorem not_prefix_interior (ps : List Nat) (hps : Scalars ps) (hne : ps ≠ []) (c : Nat)
+    (hc : isScalar c = true) (y : Bytes) (j : Nat) (h0 : 0 < j) (hj : j < (encodeRune c).length) :
+    (encodeAll ps).isPrefixOf ((encodeRune c ++ y).drop j) = false := by
+  obtain ⟨b0, t, he, _, ht⟩ := encodeRune_shape c hc
+  match ps, hne with
+  | q :: ps', _ =>
+    obtain ⟨q0, qt, hq, hq0, _⟩ := encodeRune_shape q hps.head
+    rw [he] at hj ⊢
+    match j, h0 with
+    | j' + 1, _ =>
+      have hj' : j' < t.length := by simpa using hj
+      rw [List.cons_append, List.drop_succ_cons, List.drop_append_of_le_length (by omega),
+        List.drop_eq_getElem_cons hj', encodeAll_cons, hq, List.cons_append, List.cons_append,
+        List.isPrefixOf_cons_cons]
+      have hb : isCont t[j'] = true := ht _ (List.getElem_mem hj')
+      have : (q0 == t[j']) = false := by
+        apply beq_false_of_ne
+        intro e; rw [e, hb] at hq0; cases hq0
+      rw [this]; rfl
+
+theorem isPrefixOf_encodeAll (ps cs : List Nat) (hps : Scalars ps) (hcs : Scalars cs) :
+    (encodeAll ps).isPrefixOf (encodeAll cs) = ps.isPrefixOf cs := by
+  rw [Bool.eq_iff_iff, List.isPrefixOf_iff_prefix, List.isPrefixOf_iff_prefix]
+  exact ⟨prefix_of_encodeAll_prefix ps cs hps hcs, encodeAll_prefix⟩
+
+/-- `strings.Index` on the bytes finds the byte offset of the code point position that the same search finds on
+    the code points -/
+theorem indexOfAux_encodeAll (ps : List Nat) (hps : Scalars ps) (hne : ps ≠ []) :
+    ∀ cs : List Nat, Scalars cs → ∀ off : Nat,
+    indexOfAux off (encodeAll cs) (encodeAll ps)
+      = (indexOfAux 0 cs ps).map (fun k => off + (encodeAll (cs.take k)).length)
+  | [], _, off => by
+    have : ps.isPrefixOf [] = false := by
+      cases ps with
+      | nil => exact absurd rfl hne
+      | cons => rfl
+    rw [indexOfAux_eq off, indexOfAux_eq 0, isPrefixOf_encodeAll ps [] hps Scalars.nil, this]
+    rfl
+  | c :: cs, hcs, off => by
+    rw [indexOfAux_eq 0 (c :: cs)]
+    by_cases hp : ps.isPrefixOf (c :: cs) = true
+    · rw [indexOfAux_eq off, isPrefixOf_encodeAll ps _ hps hcs, hp]
+      simp [encodeAll_nil]
+    · have hp' : ps.isPrefixOf (c :: cs) = false := Bool.eq_false_iff.2 hp
+      rw [hp']
+      simp only [Bool.false_eq_true, if_false]
+      rw [encodeAll_cons, indexOfAux_skip _ _ _ off, indexOfAux_encodeAll ps hps hne cs hcs.tail,
+        indexOfAux_shift cs ps (0 + 1)]
+      · cases indexOfAux 0 cs ps with
+        | none => rfl
+        | some k =>
+          simp only [Option.map_some]
+          congr 1
+          have : 0 + 1 + k = k + 1 := by omega
+          rw [this, List.take_succ_cons, encodeAll_cons, List.length_append]; omega
+      · intro j hj
+        by_cases h0 : j = 0
+        · subst h0
+          rw [List.drop_zero, ← encodeAll_cons, isPrefixOf_encodeAll ps _ hps hcs, hp']
+        · exact not_prefix_interior ps hps hne c hcs.head _ j (by omega) hj
+
+theorem indexOfAux_le : ∀ (s p : List Nat) (off k : Nat), indexOfAux off s p = some k → k ≤ off + s.length
+  | [], p, off, k, h => by
+    rw [indexOfAux_eq] at h
+    split at h
+    · injection h with h; omega
+    · cases h
+  | a :: t, p, off, k, h => by
+    rw [indexOfAux_eq] at h
+    split at h
+    · injection h with h; omega
+    · have := indexOfAux_le t p (off + 1) k h
+      simp only [List.length_cons]; omega
+
+theorem indexOf_encodeAll (cs ps : List Nat) (hcs : Scalars cs) (hps : Scalars ps) (hne : ps ≠ []) :
+    indexOf (encodeAll cs) (encodeAll ps)
+      = (indexOf cs ps).map (fun k => (encodeAll (cs.take k)).length) := by
+  unfold indexOf
+  rw [indexOfAux_encodeAll ps hps hne cs hcs 0]
+  cases indexOfAux 0 cs ps <;> simp
+
+/-- the first `|encodeAll (take k cs)|` bytes of a string are its first `k` code points -/
+theorem runeCount_take_boundary (cs : List Nat) (hcs : Scalars cs) (k : Nat) (hk : k ≤ cs.length) :
+    runeCount ((encodeAll cs).take (encodeAll (cs.take k)).length) = k := by
+  conv => lhs; arg 1; arg 2; rw [encodeAll_take_drop k cs]
+  rw [List.take_left, Utf8.runeCount_encodeAll _ (hcs.take k), List.length_take]; omega
 
 end Jmes.Utf8
